@@ -1498,3 +1498,163 @@ Proof.
 Qed.
 
 End Current.
+
+(* ====================================================================== *)
+(* I. Non-vacuity: a hostile manifest                                       *)
+
+Definition hostile : manifest :=
+  [ mk_entry "a&b<c>.ls" None None None "#222" "Li<nen" None;
+    mk_entry "../x""y'.ls" (Some "q""uo'te") (Some "<b>T</b>") (Some true) "x" "y" None;
+    mk_entry "off-all.ls" (Some "off") None None "b" "c" None;
+    mk_entry "dup_file-name.ls" (Some "a&b<c>") None None "b2" "c2" None ].
+
+Definition hostile_events : list event :=
+  [ Request "/a&b<c>" "Mozilla"; Request "/a&b<c>" "Mozilla"; Request "/q""uo'te" "iPhone";
+    Request "/q""uo'te" "iPhone"; Request "/nope" "x"; Request "/../x""y'.ls" "x";
+    Request "/stop/a&b<c>" "x"; Request "/stop/q""uo'te" "x"; Request "/status" "x"; Request "/capture" "x";
+    DoneCurrent; Request "/a&b<c>" "x"; Request "/off" "x"; Request "/stop-all" "x";
+    DoneBackground "q&quot;uo&#x27;te"; Request "/q""uo'te" "x" ].
+
+(* the later entry with the same path is the listed one; the path is a request path *)
+Example hostile_listed :
+  listed hostile "a&b<c>" = Some (mk_entry "dup_file-name.ls" (Some "a&b<c>") None None "b2" "c2" None) /\
+  classify "/a&b<c>" = RtRun "a&b<c>" /\ classify "/q""uo'te" = RtRun "q""uo'te" /\
+  classify "/../x""y'.ls" = RtNone /\ classify "/stop/a&b<c>" = RtStop "a&b<c>".
+Proof. repeat split; reflexivity. Qed.
+
+Example hostile_titles :
+  map spec_title hostile = ["A&B<C>"; "<b>T</b>"; "Off"; "A&B<C>"] /\
+  spec_default_title "dup_file-name" = "Dup File Name" /\
+  map (fun e => html_escape (spec_title e)) hostile = ["A&amp;B&lt;C&gt;"; "&lt;b&gt;T&lt;/b&gt;"; "Off"; "A&amp;B&lt;C&gt;"].
+Proof. repeat split; reflexivity. Qed.
+
+(* what the history does under the repaired text: jobs are started with the manifest's
+   files under the escaped paths, a running script is not restarted, the stops hit the
+   named jobs, status and capture yield pages *)
+Example hostile_effects :
+  map r_effects (app_run repaired modelled_route_table hostile hostile_events) =
+  let a := mk_job 0 "a&amp;b&lt;c&gt;" "dup_file-name.ls" in
+  let q := mk_job 1 "q&quot;uo&#x27;te" "../x""y'.ls" in
+  let a2 := mk_job 2 "a&amp;b&lt;c&gt;" "dup_file-name.ls" in
+  let o := mk_job 3 "off" "off-all.ls" in
+  let q2 := mk_job 4 "q&quot;uo&#x27;te" "../x""y'.ls" in
+  [ [EAdd a]; []; [ESpawn q]; []; []; []; [EStop a]; [EStop q]; []; [ESnapshot]; [];
+    [EAdd a2]; [EStop a2; EAdd o]; [EClear; EStop a2; EStop q]; []; [ESpawn q2] ].
+Proof. vm_compute. reflexivity. Qed.
+
+Example hostile_pages_render :
+  forallb (fun r => match r_page r with PError _ => false | _ => true end)
+          (app_run repaired modelled_route_table hostile
+             (filter (fun ev => match ev with Request "/stop-all" _ => false | _ => true end) hostile_events)) = true.
+Proof. vm_compute. reflexivity. Qed.
+
+Example hostile_reachable_running :
+  let st := app_state_after repaired modelled_route_table (firstn 3 hostile_events) (init_app hostile) in
+  jc_is_running (html_escape "a&b<c>") (a_jobs st) = true /\
+  jc_is_running (html_escape "q""uo'te") (a_jobs st) = true /\
+  jc_is_running (html_escape "off") (a_jobs st) = false.
+Proof. repeat split; vm_compute; reflexivity. Qed.
+
+(* the pinned text (D30, D31) on the same history: status and capture are errors, the
+   jobs get the escaped file names, the stop requests reach nobody *)
+Example pinned_effects :
+  map r_effects (app_run pinned modelled_route_table hostile (firstn 10 hostile_events)) =
+  let a := mk_job 0 "a&amp;b&lt;c&gt;" "dup_file-name.ls" in
+  let q := mk_job 1 "q&quot;uo&#x27;te" "../x&quot;y&#x27;.ls" in
+  [ [EAdd a]; []; [ESpawn q]; []; []; []; []; []; []; [] ].
+Proof. vm_compute. reflexivity. Qed.
+
+Example pinned_status_capture_error :
+  map r_page (app_run pinned modelled_route_table hostile [Request "/status" "x"; Request "/capture" "x"]) =
+  [PError "TypeError"; PError "TypeError"].
+Proof. vm_compute. reflexivity. Qed.
+
+(* with the pinned text the property's statements fail: a witness for each *)
+Theorem pinned_refutes_only_manifest_files : exists m evs resp j,
+  In resp (app_run pinned modelled_route_table m evs) /\ started (r_effects resp) j /\
+  forall e, In e m -> j_file j <> e_file e.
+Proof.
+  exists hostile, (firstn 3 hostile_events).
+  exists (mk_resp [ESpawn (mk_job 1 "q&quot;uo&#x27;te" "../x&quot;y&#x27;.ls")]
+                  (PAction "mobile" (mk_view "../x&quot;y&#x27;.ls" "q&quot;uo&#x27;te" "&lt;b&gt;T&lt;/b&gt;" "x" "y" "litBulb" true false) "Started")).
+  exists (mk_job 1 "q&quot;uo&#x27;te" "../x&quot;y&#x27;.ls").
+  split; [vm_compute; auto|]. split; [right; now left|].
+  intros e [<-|[<-|[<-|[<-|[]]]]]; cbn; discriminate.
+Qed.
+
+Theorem pinned_refutes_stop_named : exists m evs url st,
+  st = app_state_after pinned modelled_route_table evs (init_app m) /\
+  classify url = RtStop "a&b<c>" /\ jc_is_running (html_escape "a&b<c>") (a_jobs st) = true /\
+  r_effects (snd (handle pinned modelled_route_table url "x" st)) = [] /\
+  jc_stop_job_targets (html_escape "a&b<c>") (a_jobs st) <> [].
+Proof.
+  exists hostile, (firstn 1 hostile_events), "/stop/a&b<c>". eexists. split; [reflexivity|].
+  repeat split; try (vm_compute; reflexivity). vm_compute. discriminate.
+Qed.
+
+(* ====================================================================== *)
+(* J. the documented derivation, collected                                  *)
+
+Theorem default_path_documented : forall e,
+  get_script_path e = spec_path e /\
+  (forall p, given (e_path e) = Some p -> get_script_path e = p) /\
+  (given (e_path e) = None ->
+     (forall b, e_file e = String.append b ".ls" -> get_script_path e = b) /\
+     ((forall b, e_file e <> String.append b ".ls") -> get_script_path e = e_file e)).
+Proof.
+  intros e. split; [apply get_script_path_spec|]. rewrite get_script_path_spec. unfold spec_path.
+  split.
+  - intros p ->. reflexivity.
+  - intros ->. split.
+    + intros b Hb. apply (is_base_of_unique (e_file e)); [apply base_name_spec|now left].
+    + intros Hn. apply (is_base_of_unique (e_file e)); [apply base_name_spec|right; auto].
+Qed.
+
+Theorem default_title_documented : forall e,
+  get_script_title e = spec_title e /\
+  (forall t, given (e_title e) = Some t -> get_script_title e = t) /\
+  (given (e_title e) = None ->
+     get_script_title e = title_from None (str_map spaced_char (get_script_path e)) /\
+     String.length (get_script_title e) = String.length (get_script_path e) /\
+     forall i c, String.get i (str_map spaced_char (get_script_path e)) = Some c ->
+       String.get i (get_script_title e) =
+         Some (title_char (match i with O => None | S k => String.get k (str_map spaced_char (get_script_path e)) end) c)).
+Proof.
+  intros e. split; [apply get_script_title_spec|]. rewrite get_script_title_spec, get_script_path_spec.
+  unfold spec_title. split.
+  - intros t ->. reflexivity.
+  - intros ->. unfold spec_default_title. split; [reflexivity|]. split.
+    + rewrite title_from_length. clear. induction (spec_path e) as [|c s IH]; cbn [str_map String.length]; [reflexivity|now rewrite IH].
+    + intros i c Hg. now apply title_from_get.
+Qed.
+
+Example documented_examples :
+  let mk f p t := mk_entry f p t None "b" "c" None in
+  map (fun e => (get_script_path e, get_script_title e))
+      [mk "reading.ls" None None; mk "all-off.ls" None None; mk "all_off.ls" (Some "off") (Some "All Off");
+       mk "snapshot.ls" (Some "retrieve") None; mk "test-get_title" None None; mk "x.ls.ls" (Some "") (Some "");
+       mk ".ls" None None; mk "ls" None None; mk "on5min.LS" None None] =
+  [("reading", "Reading"); ("all-off", "All Off"); ("off", "All Off"); ("retrieve", "Retrieve");
+   ("test-get_title", "Test Get Title"); ("x.ls", "X.Ls"); ("", ""); ("ls", "Ls"); ("on5min.LS", "On5Min.Ls")].
+Proof. vm_compute. reflexivity. Qed.
+
+Theorem str_title_facts : forall s,
+  str_title s = title_from None s /\ str_title (str_title s) = str_title s.
+Proof. exact (fun s => conj (str_title_spec s) (str_title_idempotent s)). Qed.
+
+Theorem default_title_stable : forall name,
+  spec_default_title (spec_default_title name) = spec_default_title name /\
+  forall i c, String.get i (spec_default_title name) = Some c -> c <> "_"%char /\ c <> "-"%char.
+Proof. exact (fun name => conj (default_title_idempotent name) (default_title_no_separator name)). Qed.
+
+Theorem escape_loses_nothing : forall s t,
+  html_unescape (html_escape s) = s /\ (html_escape s = html_escape t -> s = t).
+Proof. exact (fun s t => conj (unescape_escape s) (escape_injective s t)). Qed.
+
+Theorem stop_job_targets_facts : forall name s,
+  (jc_is_running name s = true ->
+     exists j, jc_stop_job_targets name s = [j] /\ j_name j = name /\
+               (jc_current s = Some j \/ (In j (jc_background s) /\
+                  forall c, jc_current s = Some c -> j_name c <> name))) /\
+  (jc_is_running name s = false -> jc_stop_job_targets name s = []).
+Proof. exact (fun name s => conj (stop_job_targets_running name s) (stop_job_targets_not_running name s)). Qed.
